@@ -20,6 +20,7 @@ type KnownFinding struct {
 	Commit     string            `json:"commit,omitempty"`
 	Match      []ModelPredicate  `json:"match,omitempty"`
 	Extra      map[string]string `json:"extra,omitempty"`
+	InputRegex string            `json:"input_regex,omitempty"` // for bounded stand-ins: the failing input the finding is identified by
 }
 
 // ModelPredicate restricts a known finding to counterexamples whose model satisfies it.
